@@ -78,8 +78,16 @@ def stat_names(desc):
     return tuple(k for k, _ in sorted(map(tuple, desc["stats"])))
 
 
+def _count(letters, word):
+    # sided statistics of pair classes: '<' = counted in the left word of u|v only, '>' = right only
+    if "|" in word and ("<" in letters or ">" in letters):
+        u, v = word.split("|", 1)
+        word = u if "<" in letters else v
+    return sum(1 for ch in word if ch in letters)
+
+
 def params(desc, word):
-    return tuple(sum(1 for ch in word if ch in letters) for _, letters in sorted(map(tuple, desc["stats"])))
+    return tuple(_count(letters, word) for _, letters in sorted(map(tuple, desc["stats"])))
 
 
 @functools.lru_cache(maxsize=200000)
